@@ -731,6 +731,18 @@ def m_next_multiple_of(m, st, ctx, args, span):
     return Int(w, a.signed, binop("add", a.e, slack, w))
 
 
+@model(*["core::num::<impl %s>::div_ceil" % t for t in ("u8", "u16", "u32", "u64", "usize")])
+def m_div_ceil(m, st, ctx, args, span):
+    # x.div_ceil(p) = x.next_multiple_of(p) / p (unsigned; panics on p == 0): spelled over the next_multiple_of form so that
+    # `x.div_ceil(p) * p` is recognised by the bounds prover as rounding x up to a multiple of p
+    a, b = args
+    if a.is_const() and b.is_const() and b.cval():
+        return int_const(-(-a.cval() // b.cval()), a.w, a.signed)
+    w = a.w
+    slack = binop("rem", binop("sub", b.e, binop("rem", a.e, b.e, w), w), b.e, w)
+    return Int(w, a.signed, binop("div", binop("add", a.e, slack, w), b.e, w))
+
+
 @model("core::num::<impl u64>::abs_diff", "core::num::<impl usize>::abs_diff", "core::num::<impl u32>::abs_diff",
        "core::num::<impl i64>::abs_diff", "core::num::<impl isize>::abs_diff")
 def m_abs_diff(m, st, ctx, args, span):
